@@ -8,6 +8,7 @@ import (
 	"strings"
 	"testing"
 	"time"
+	"verif/harness/guard"
 
 	codec "github.com/uhppoted/uhppote-core/encoding/UTO311-L0x"
 	"pgregory.net/rapid"
@@ -325,6 +326,20 @@ func decide(c layoutCase) *rp.Fail {
 	}
 	if f := check(""); f != nil {
 		return f
+	}
+	// the same 64 bytes flush against unreadable memory: a field that ends on the last byte is decoded without reading past it
+	for i := 0; i < 2 && guard.Available(); i++ {
+		placed, release := guard.Place(enc, i == 0)
+		g := reflect.New(typ)
+		var gerr error
+		p := guard.Do(func() { gerr = codec.Unmarshal(placed, g.Interface()) })
+		release()
+		if p != nil || gerr != nil {
+			return rp.Failf(site+"/reads-beyond-the-message", "layout %s: decoding %x placed at the %s of a readable page failed: %v %v", describe(c), enc, []string{"end", "start"}[i], p, gerr)
+		}
+		if d := fv.FirstDiff(fv.CanonAll(out.Elem()), fv.CanonAll(g.Elem())); d != "" {
+			return rp.Failf(site+"/reads-beyond-the-message", "layout %s: %x decodes differently when it is placed against an unreadable page: %s", describe(c), enc, d)
+		}
 	}
 	// decoded values share no memory with the input buffer
 	full := buf[:cap(buf)]
